@@ -157,14 +157,8 @@ def c04_reverse(ctx, case):
 
 
 # ---- a fixed grid: every row x two record lengths x every relation, every window name x three lengths ---------------------
-GRID_PARAMS = {"Periodogram": {"window": "hamming"}, "pcorrelogram": {"lag": 7, "window": "hann"}, "pburg": {"order": 5},
-               "pyule": {"order": 4}, "pcovar": {"order": 4}, "pmodcovar": {"order": 5}, "parma": {"P": 3, "Q": 2, "lag": 12},
-               "pma": {"Q": 3, "M": 10}, "pminvar": {"order": 6}, "pmusic": {"IP": 7, "NSIG": 2}, "pev": {"IP": 7, "NSIG": 2},
-               "mtm_unity": {"NW": 2.5, "k": 4}, "mtm_eigen": {"NW": 2.5, "k": 4}, "mtm_adapt": {"NW": 2.5, "k": 4}}
-
-
-def _grid_x(N, cplx, salt):
-    return {"kind": "ar", "n": N, "complex": cplx, "seed": 4000 + 17 * N + salt, "pole": [0.7, 1.3]}
+GRID_PARAMS = est.GRID_PARAMS
+_grid_x = est.grid_x
 
 
 def enum_grid(tier):
